@@ -96,6 +96,10 @@ def refusal_lines(ctx):
         for ct in ALL_TYPES:
             for fl in (0, 32):
                 L.append(("b %d %d %s" % (ct, fl, tok), tok, ct, fl))
+    # generic values outside the representable domain: refused for every column type
+    for tok in progs.OUT_OF_DOMAIN_BIN:
+        for ct in (7, 10, 11, 12, 253):
+            L.append(("b %d 0 %s" % (ct, tok), "OUT " + tok, ct, 0))
     return L
 
 
@@ -126,10 +130,13 @@ def run(ctx):
     corr["evaluations"] += len(L)
     mism = 0
     for (line, tok, ct, fl), a, m in zip(L, impl, model):
-        k = kind_of(tok)
+        outdom = tok.startswith("OUT ")
+        k = kind_of(tok[4:] if outdom else tok)
         corr["hist"]["kind_" + k] = corr["hist"].get("kind_" + k, 0) + 1
         bad = None
-        if a.startswith("ok ") and ct not in CARRIES[k]:
+        if outdom and a.startswith("ok "):
+            bad = "a value outside the representable domain was accepted and encoded as %s" % a[3:60]
+        elif a.startswith("ok ") and ct not in CARRIES[k]:
             bad = "a %s value was encoded for column type %d, which cannot carry it" % (k, ct)
         elif a.startswith("panic"):
             bad = "panicked (%s) instead of refusing with an error" % a
